@@ -10,217 +10,7 @@
   values; `WfRP`, `WfSC`, `BytesOk` are decidable (so is `p.enc = .ok bytes` in part D).  `SameOutcome` compares `ok`/`err` values exactly and
   panics up to the text of the site.
 -/
-import RenetVerif.Lemmas.SrcEquiv
-namespace RenetVerif.SrcTie
-open RenetVerif RenetVerif.SrcEquiv
-
-/-! ## A. `renetcode/src/replay_protection.rs` ↔ `Netcode.RP` -/
-section A
-open Src.renetcode.replay_protection Netcode
-
-/-- `ReplayProtection::new()` is well-formed and abstracts to `RP.new` -/
-theorem replay_new {ε : Type} :
-    ∃ st h, (ReplayProtection.new : Res ε ReplayProtection) = .ok st ∧ absRP st h = RP.new :=
-  ⟨_, wf_reprRP _, rp_new_eq, absRP_reprRP _ _⟩
-
-/-- `already_received` never panics on a well-formed state and returns the model's verdict -/
-theorem replay_already_received {ε : Type} (st : ReplayProtection) (h : WfRP st) (sequence : Nat) (hs : sequence < 2 ^ 64) :
-    (ReplayProtection.already_received st sequence : Res ε Bool) = .ok ((absRP st h).alreadyReceived sequence) := by
-  have := already_received_eq (ε := ε) (absRP st h) sequence hs
-  rwa [reprRP_absRP] at this
-
-/-- `advance_sequence` never panics on a well-formed state; the new state is well-formed and abstracts to
-    `RP.advance` -/
-theorem replay_advance_sequence {ε : Type} (st : ReplayProtection) (h : WfRP st) (sequence : Nat) (hs : sequence < 2 ^ 64) :
-    ∃ st' h', (ReplayProtection.advance_sequence st sequence : Res ε (ReplayProtection × Unit)) = .ok (st', ()) ∧
-      absRP st' h' = (absRP st h).advance sequence := by
-  have := advance_sequence_eq (ε := ε) (absRP st h) sequence hs
-  rw [reprRP_absRP] at this
-  exact ⟨_, wf_reprRP _, this, absRP_reprRP _ _⟩
-
-example : (ReplayProtection.already_received (reprRP ((RP.new.advance 300).advance 7)) 44 : Res Empty Bool) = .ok true := by
-  decide +kernel
-example : (ReplayProtection.already_received (reprRP ((RP.new.advance 300).advance 7)) 301 : Res Empty Bool) = .ok false := by
-  decide +kernel
-example : (ReplayProtection.advance_sequence (reprRP RP.new) 5 : Res Empty _) = .ok (reprRP (RP.new.advance 5), ()) := by
-  decide +kernel
-end A
-
-/-! ## B. `renetcode/src/packet.rs` ↔ `Netcode.Packet` / `Netcode.PacketType` -/
-section B
-open Src.renetcode.packet Netcode
-
-/-- `sequence_bytes_required` (the 8-round mask loop) never panics and equals the model's byte count -/
-theorem sequence_bytes_required {ε : Type} (sequence : Nat) :
-    (Src.renetcode.packet.sequence_bytes_required sequence : Res ε Nat) = .ok (Packet.sequenceBytesRequired sequence) :=
-  sequence_bytes_required_eq sequence
-
-/-- `encode_prefix(value, sequence)` for a packet-type nibble `value < 16`: the model's prefix byte -/
-theorem encode_prefix {ε : Type} (value sequence : Nat) (hv : value < 16) :
-    (Src.renetcode.packet.encode_prefix value sequence : Res ε Nat) = .ok (Packet.encodePrefix value sequence).toNat :=
-  encode_prefix_eq value sequence hv
-
-/-- `decode_prefix` on any byte -/
-theorem decode_prefix {ε : Type} (value : UInt8) :
-    (Src.renetcode.packet.decode_prefix value.toNat : Res ε (Nat × Nat)) = .ok (Packet.decodePrefix value) :=
-  decode_prefix_eq value
-
-/-- `PacketType::from_u8`: same variant / same error for every `value` -/
-theorem packet_type_from_u8 (value : Nat) :
-    mapRes absPT absErr (Src.renetcode.packet.PacketType.from_u8 value) = Netcode.PacketType.fromU8 value :=
-  from_u8_eq value
-
-/-- `PacketType::apply_replay_protection` -/
-theorem packet_type_apply_replay_protection {ε : Type} (t : Src.renetcode.packet.PacketType) :
-    (Src.renetcode.packet.PacketType.apply_replay_protection t : Res ε Bool) = .ok (absPT t).applyReplayProtection :=
-  apply_replay_protection_eq t
-
-example : (Src.renetcode.packet.sequence_bytes_required 0x012345 : Res Empty Nat) = .ok 3 := by decide +kernel
-example : (Src.renetcode.packet.sequence_bytes_required 0 : Res Empty Nat) = .ok 1 := by decide +kernel
-example : (Src.renetcode.packet.encode_prefix 5 0x0100 : Res Empty Nat) = .ok 0x25 := by decide +kernel
-example : (Src.renetcode.packet.decode_prefix 0x25 : Res Empty (Nat × Nat)) = .ok (5, 2) := by decide +kernel
-example : Src.renetcode.packet.PacketType.from_u8 4 = .ok .KeepAlive := by decide +kernel
-example : Src.renetcode.packet.PacketType.from_u8 7 = .err .InvalidPacketType := by decide +kernel
-example : (Src.renetcode.packet.PacketType.apply_replay_protection .Challenge : Res Empty Bool) = .ok false := by decide +kernel
-end B
-
-/-! ## C. `renet/src/channel/slice_constructor.rs` ↔ `SliceCtor` -/
-section C
-open Src.renet.channel.slice_constructor
-
-/-- `SliceConstructor::new`: without `usize` overflow of `num_slices * SLICE_SIZE` it is the model's constructor -/
-theorem slice_constructor_new {ε : Type} (message_id num_slices : Nat) (h : num_slices * C.SLICE_SIZE < 2 ^ 64) :
-    (SliceConstructor.new message_id num_slices : Res ε SliceConstructor) = .ok (reprSC message_id (SliceCtor.new num_slices)) :=
-  sc_new_eq message_id num_slices h
-
-/-- … and with overflow it panics (debug-profile multiplication) -/
-theorem slice_constructor_new_overflow {ε : Type} (message_id num_slices : Nat) (h : ¬ num_slices * C.SLICE_SIZE < 2 ^ 64) :
-    ∃ site, (SliceConstructor.new message_id num_slices : Res ε SliceConstructor) = .panic site :=
-  sc_new_overflow message_id num_slices h
-
-/-- `process_slice` on a well-formed state and a byte slice: same new state and payload, same
-    `InvalidSliceMessage` error, and a panic exactly when the model panics -/
-theorem slice_constructor_process_slice (st : SliceConstructor) (hst : WfSC st) (slice_index : Nat) (bytes : List Nat)
-    (hb : BytesOk bytes) :
-    SameOutcome (SliceConstructor.process_slice st slice_index bytes)
-      (mapRes (fun r => (reprSC st.message_id r.1, r.2.map toNats)) reprCE
-        ((absSC st).processSlice slice_index (ofNats bytes))) := by
-  have := process_slice_eq st.message_id (absSC st) slice_index (ofNats bytes) hst.2.1 hst.2.2
-  rwa [reprSC_absSC st hst.1, toNats_ofNats hb] at this
-
-/-- the same statement from the model's side: for every model state and message id -/
-theorem slice_constructor_process_slice' (message_id : Nat) (c : SliceCtor) (slice_index : Nat) (bytes : Bytes)
-    (hn : c.numSlices * C.SLICE_SIZE < 2 ^ 64) (hr : c.numReceived + 1 < 2 ^ 64) :
-    SameOutcome (SliceConstructor.process_slice (reprSC message_id c) slice_index (toNats bytes))
-      (mapRes (fun r => (reprSC message_id r.1, r.2.map toNats)) reprCE (c.processSlice slice_index bytes)) :=
-  process_slice_eq message_id c slice_index bytes hn hr
-
-/-- a 1-slice message of 3 bytes completes at once -/
-example :
-    (SliceConstructor.new 9 1 >>= fun st => SliceConstructor.process_slice st 0 [1, 2, 3]) =
-      .ok (⟨9, 1, 1, [true], []⟩, some [1, 2, 3]) := by decide +kernel
-/-- a wrong slice index is an error -/
-example :
-    (SliceConstructor.new 9 1 >>= fun st => SliceConstructor.process_slice st 1 [1, 2, 3]) =
-      .err .InvalidSliceMessage := by decide +kernel
-end C
-
-/-! ## D. `renet/src/packet.rs` `Packet::to_bytes` (over the octets model of RustSem) ↔ `Packet.enc` / `Packet.toBytes` -/
-section D
-open RustSem
-
-/-- `SerializationError` generated ↦ model -/
-def absSerErr : Src.renet.packet.SerializationError → SerErr
-  | .BufferTooShort => .bufferTooShort | .InvalidNumSlices => .invalidNumSlices
-  | .SliceSizeAboveLimit => .sliceSizeAboveLimit | .EmptySlice => .emptySlice
-  | .InvalidAckRange => .invalidAckRange | .InvalidPacketType => .invalidPacketType
-
-/-- `Packet::to_bytes` on ANY cursor (`off ≤ buf.len()`), for every model packet whose model encoding is defined
-    (`p.enc = .ok bytes`: all varints `< 2^62`, ack ranges non-empty and ordered — decidable): if the bytes fit,
-    exactly the model's bytes are written at the offset, the offset advances and their number is returned;
-    otherwise `Err(BufferTooShort)`.  No panic. -/
-theorem packet_to_bytes (p : Packet) (b : OctetsMut) (hb : b.off ≤ b.buf.length) (bytes : Bytes)
-    (henc : p.enc = .ok bytes) :
-    Src.renet.packet.Packet.to_bytes (reprPacket p) b =
-      if b.off + bytes.length ≤ b.buf.length then
-        .ok ({ buf := b.buf.take b.off ++ toNats bytes ++ b.buf.drop (b.off + bytes.length), off := b.off + bytes.length },
-             bytes.length)
-      else .err .BufferTooShort := by
-  have := to_bytes_eq p b hb bytes henc
-  simpa [finish, owrite, toNats_length] using this
-
-/-- on a fresh buffer: the written prefix / the error is what the model's `Packet.toBytes buf.len()` returns -/
-theorem packet_to_bytes_fresh (p : Packet) (buf : List Nat) (bytes : Bytes) (henc : p.enc = .ok bytes) :
-    mapRes (fun r => ofNats (r.1.buf.take r.2)) absSerErr
-        (Src.renet.packet.Packet.to_bytes (reprPacket p) (OctetsMut.with_slice buf)) =
-      Packet.toBytes buf.length p := by
-  have h := packet_to_bytes p (OctetsMut.with_slice buf) (Nat.zero_le _) bytes henc
-  rw [h]
-  unfold Packet.toBytes
-  rw [henc]
-  simp only [OctetsMut.with_slice, Nat.zero_add, List.take_zero, List.nil_append, Res.bind_ok]
-  by_cases hfit : bytes.length ≤ buf.length
-  · rw [if_pos hfit, if_pos hfit]
-    simp only [mapRes, Res.pure_eq]
-    congr 1
-    have hl : (toNats bytes).length = bytes.length := toNats_length _
-    rw [List.take_append_of_le_length (by omega), List.take_of_length_le (by omega), ofNats_toNats]
-  · rw [if_neg hfit, if_neg hfit]; rfl
-
-/-- a SmallReliable packet with one 3-byte message into an 16-byte buffer -/
-example :
-    Src.renet.packet.Packet.to_bytes (.SmallReliable 5 1 [(7, [9, 9, 9])]) (OctetsMut.with_slice (List.replicate 16 0)) =
-      .ok (⟨[0, 5, 1, 0, 1, 7, 3, 9, 9, 9, 0, 0, 0, 0, 0, 0], 10⟩, 10) := by decide +kernel
-/-- a two-byte varint (sequence 300 = 0x412c) and a buffer that is too short -/
-example :
-    Src.renet.packet.Packet.to_bytes (.Ack 300 [⟨10, 20⟩, ⟨35, 40⟩]) (OctetsMut.with_slice (List.replicate 9 0)) =
-      .ok (⟨[4, 0x41, 0x2c, 39, 4, 1, 14, 9, 0], 8⟩, 8) := by decide +kernel
-example :
-    Src.renet.packet.Packet.to_bytes (.Ack 300 [⟨10, 20⟩, ⟨35, 40⟩]) (OctetsMut.with_slice (List.replicate 7 0)) =
-      .err .BufferTooShort := by decide +kernel
-
-/-- `Packet::from_bytes` on a read cursor over `pre ++ rest` standing after `pre` (every byte sequence, every
-    position): it never panics; it returns the model decoder's packet and leaves the cursor where the model's
-    remaining input starts, or fails with the model's error. -/
-theorem packet_from_bytes (pre rest : Bytes) :
-    Src.renet.packet.Packet.from_bytes ⟨toNats (pre ++ rest), pre.length⟩ =
-      match Packet.decode rest with
-      | .ok (p, r) => .ok (⟨toNats (pre ++ rest), (pre ++ rest).length - r.length⟩, reprPacket p)
-      | .error e => .err (reprSerErr e) := by
-  have h := from_bytes_eq (pre ++ rest) rest (List.suffix_append pre rest)
-  have hc : cur (pre ++ rest) rest = ⟨toNats (pre ++ rest), pre.length⟩ := by
-    simp [cur]
-  rw [hc] at h
-  rw [h]
-  cases Packet.decode rest with
-  | error e => rfl
-  | ok x => rfl
-
-/-- on a fresh cursor: the packet / error of the model's `Packet.fromBytes` -/
-theorem packet_from_bytes_fresh (buf : Bytes) :
-    mapRes Prod.snd id (Src.renet.packet.Packet.from_bytes (Octets.with_slice (toNats buf))) =
-      match Packet.fromBytes buf with
-      | .ok p => .ok (reprPacket p)
-      | .error e => .err (reprSerErr e) := by
-  have h := packet_from_bytes [] buf
-  simp only [List.nil_append, List.length_nil] at h
-  unfold Octets.with_slice Packet.fromBytes
-  rw [h]
-  cases Packet.decode buf with
-  | error e => rfl
-  | ok x => rfl
-
-/-! test vectors for the generated `from_bytes` -/
-example :
-    Src.renet.packet.Packet.from_bytes (Octets.with_slice [0, 5, 1, 0, 1, 7, 3, 9, 9, 9, 0, 0]) =
-      .ok (⟨[0, 5, 1, 0, 1, 7, 3, 9, 9, 9, 0, 0], 10⟩, .SmallReliable 5 1 [(7, [9, 9, 9])]) := by decide +kernel
-example :
-    Src.renet.packet.Packet.from_bytes (Octets.with_slice [4, 0x41, 0x2c, 39, 4, 1, 14, 9]) =
-      .ok (⟨[4, 0x41, 0x2c, 39, 4, 1, 14, 9], 8⟩, .Ack 300 [⟨10, 20⟩, ⟨35, 40⟩]) := by decide +kernel
-example : Src.renet.packet.Packet.from_bytes (Octets.with_slice [2, 5, 1, 7, 0, 0, 1, 9]) = .err .InvalidNumSlices := by
-  decide +kernel
-example : Src.renet.packet.Packet.from_bytes (Octets.with_slice [4, 0x41]) = .err .BufferTooShort := by decide +kernel
-example : Src.renet.packet.Packet.from_bytes (Octets.with_slice [9]) = .err .InvalidPacketType := by decide +kernel
-end D
-
-end RenetVerif.SrcTie
+import RenetVerif.Props.SrcTieReplay
+import RenetVerif.Props.SrcTiePrefix
+import RenetVerif.Props.SrcTieSlice
+import RenetVerif.Props.SrcTiePacket
